@@ -3,7 +3,8 @@
   (hit-object lines of all four kinds, the [HitObjects] block), Props/C04Timing.lean (the [TimingPoints] block),
   Props/C04File.lean + C04Toy.lean (all parts composed: `encoded_file_accepted`) and Props/C04Decoded.lean (the
   `Decoded` invariant: every decoded map's record sections are representable), Props/C04DecodedObjects.lean (the hit objects
-  of decoded maps are representable up to named residuals). All in namespace `Rosu.C04`.
+  of decoded maps are representable up to named residuals; on the IEEE instances: Props/C04DecodedObjectsIeee.lean,
+  Props/C04DecodedObjectsIeee2.lean). All in namespace `Rosu.C04`.
 -/
 import RosuModel.Props.C04Slider
 import RosuModel.Props.C04Timing
@@ -15,3 +16,4 @@ import RosuModel.Props.C04DecodedIeee
 import RosuModel.Props.C04DecodedObjects
 import RosuModel.Props.C04DecodedObjectsToy
 import RosuModel.Props.C04DecodedObjectsIeee
+import RosuModel.Props.C04DecodedObjectsIeee2
